@@ -1,8 +1,7 @@
-// L8 (WORK IN PROGRESS, listed in units/.wip; twin of l8_boxed_safegcd_top.rs for `invert_vartime`): the entry points of src/modular/safegcd/boxed.rs that other units still ASSUME with an
-// abstract inverter model (l8_boxed_monty.rs: `BoxedSafeGcdInverter::new`, `Inverter::invert`; l8_boxed_monty2.rs: `invert_vartime`), proved
-// here against the concrete model of l8_boxed_safegcd.rs (`swf` / `sm` / `sadj`, contract `sg_invert_post` == the one of the fixed-width
-// `SafeGcdInverter::inv`).  Not part of the checked crate because the same /repo functions are stub regions of those units (a function may
-// appear once); moving the bodies there needs their contracts to carry `swf` and the size bound SG_BOXED_MAX_SAT (see the final report).
+// L8: `Inverter::invert_vartime` of src/modular/safegcd/boxed.rs (entry point of the boxed Bernstein-Yang inverter), PROVED against the concrete
+// inverter model of l8_boxed_safegcd.rs (`swf` / `sm` / `sadj`, contract `sg_invert_post` == the one of the fixed-width `SafeGcdInverter::inv`).
+// The crate trait `Inverter` is hand-declared here (one method per unit) and re-exported by l8_boxed_monty2.rs, whose inverter model
+// (`m()` / `adj()` / `nl()`, `sgi_invert_post`) is defined over this concrete one. -- C10
 use vstd::prelude::*;
 use vstd::arithmetic::power::*;
 use vstd::arithmetic::power2::*;
@@ -23,7 +22,7 @@ use crate::l8_boxed_safegcd::{divsteps, divsteps_vartime};
 
 verus! {
 
-// hand-declared crate trait (as in l8_boxed_monty2.rs), one method per unit
+// hand-declared crate trait (src/traits.rs), one method per unit
 pub trait Inverter {
     type Output;
     spec fn invert_vartime_req(&self, value: &Self::Output) -> bool;
